@@ -467,7 +467,7 @@ theorem ring_center_north (debug : Bool) {n r q j : Nat} (hn30 : n < 2 ^ 30) (hR
     positivity
   rw [e1, e2, Int.cast_natCast]
   congr 2
-  push_cast; field_simp
+  push_cast; field_simp; ring
 
 /-- equatorial band, ring `n − 1 + e` (`e ≤ 2n`, `4n` cells, the transition rings `y = ±1` included): cell
     `2n(n−1) + 4n·e + i` has its centre at `x = (2i + (e+1) mod 2)/n` (half-step offset between rings of different
@@ -497,7 +497,7 @@ theorem ring_center_south (debug : Bool) {n t q j : Nat} (hn30 : n < 2 ^ 30) (hR
     positivity
   rw [e1, e2]
   congr 2
-  push_cast; field_simp
+  push_cast; field_simp; ring
 
 /-- sanity check of the closed forms against the task's table: `n = 3`, first north ring `x = 1, 3, 5, 7`, second
     ring `x·3 = 2, 4, 8, 10, …` -/
